@@ -55,14 +55,14 @@ CLAIMS = {
  "C17": ("inventory of growth calls on receiver registries each with a bound; cache counter grows by at least the cached datagram; block allocation limit accounts in bytes in both arms; timeout clock refreshed only by packets of the object; cleanup decision table over FDT states and timeouts; cleanup covers every registry",
          "E2 who-may-call over growth methods + dominance/pairing + predicate inspection",
          "live heap bytes are NOT decided"),
- "C18": ("routing key provenance and derived Hash/Eq; filter gate before dispatch; open only on creation, every removal paired with close for the removed keys and close only for a session that existed, single evaluation of clock-reading predicates; sibling refcount shapes",
+ "C18": ("routing key provenance and derived Hash/Eq; filter gate before dispatch; open only on creation, every removal paired with close for the removed keys and close only for a session that existed, single evaluation of clock-reading predicates; sibling refcount shapes; the four filter calls hand their own (endpoint, tsi) to the matching TSIFilter method and the filter's add/remove bookkeeping is symmetric; listener ids come from a counter that only grows",
          "E2 argument/type rules, must-pass-through under assumption, pairing, E3 decision table of is_valid",
          "isolation as behaviour and refcount arithmetic over sequences are NOT decided"),
- "C19": ("is_expired over all orderings; Expired only under enable_expired_check from Complete; both attach_fdt sites behind update_expired_state + Complete; skew sign consistency; Expires taken from the instance's own attribute as NTP seconds (upper half), None when unparsable",
-         "E3 decision table + E2 dominance/must-pass-through/argument rules",
+ "C19": ("is_expired over all orderings; Expired only under enable_expired_check from Complete; both attach_fdt sites behind update_expired_state + Complete; skew sign consistency; Expires taken from the instance's own attribute as NTP seconds (upper half), None when unparsable; the sender clock the skew is computed from is read from EXT_TIME at its RFC 5651 bit positions, every valid flag combination accepted",
+         "E3 decision table + E2 dominance/must-pass-through/argument rules + E5 bit provenance of EXT_TIME",
          "outcomes over all clock offsets (time arithmetic) are NOT decided"),
- "C20": ("stream block buffer filled by a loop on the object's own stream (no per-block buffering adaptor), Interrupted retried; every transfer rewinds and builds a fresh encoder; sibling block readers agree; stream length measured with position restored",
-         "E2 loop rule, must-pass-through, sibling dominance/argument rules",
+ "C20": ("stream block buffer filled by a loop on the object's own stream (no per-block buffering adaptor), Interrupted retried; every transfer rewinds and builds a fresh encoder; sibling block readers agree; stream length measured with position restored; the close-object flag is decided from byte counts, not from the reader's state",
+         "E2 loop rule, must-pass-through, sibling dominance/argument rules, dependence rule on the close flag",
          "equality of packet sequences for all chunkings is NOT decided"),
 }
 
